@@ -117,7 +117,7 @@ def check_one(ctx, lib, rule, ty):
         good = r[0] == "if" and r[3] is not None and unify(eqn(comm(op, Un, Vn), Wn), r[1]) is not None and unify(("ctor", P("Ok"), (STATE,)), tables.result(r[2])) is not None and unify(pat("Err(_)"), tables.result(r[3])) is not None
         ctx.expect(good, rule, key + "|equation=NNN", site, "all operands ground: must succeed exactly when u %s v == w (state unchanged) and fail otherwise; found %s" % (op, show(r, maxdepth=6)[:240]))
 
-    def check_bind(combo, target_walk, value_pat, what):
+    def check_bind(combo, target_walk, value_pat, what, fail_ok=None):
         if combo not in covered:
             return
         i, p, b = covered[combo]
@@ -152,6 +152,11 @@ def check_one(ctx, lib, rule, ty):
                 okp = r2 is not None and (unify(pat("Err(_)"), r2) is not None or unify(READD, r2) is not None)
                 if ty == "PlusZ":
                     okp = False  # addition always has a solution
+                elif okp and unify(pat("Err(_)"), r2) is not None and fail_ok is not None and not fail_ok(lits):
+                    okp = False
+                    allok = False
+                    ctx.violation(rule, k + "|unjustified-failure", site, "the constraint fails on a path that establishes neither a zero divisor with a non-zero product nor an inexact division: an integer solution may exist; literals %s" % [(show(l[0], maxdepth=4)[:70], l[1]) for l in lits])
+                    continue
                 if not okp:
                     allok = False
                     ctx.violation(rule, k + "|no-binding-path", site, "path without a binding must fail or keep the constraint (and plusz always binds): %s" % (show(r2, maxdepth=4) if r2 else "nothing"))
@@ -169,8 +174,8 @@ def check_one(ctx, lib, rule, ty):
         check_bind("NVN", walks[1], direct(binop("Sub", Wn, Un)), "v must be bound to w - u")
         check_bind("VNN", walks[0], direct(binop("Sub", Wn, Vn)), "u must be bound to w - v")
     else:
-        check_bind("NVN", walks[1], quotient_rule(Wn, Un), "v must be bound to the exact quotient w / u with u != 0")
-        check_bind("VNN", walks[0], quotient_rule(Wn, Vn), "u must be bound to the exact quotient w / v with v != 0")
+        check_bind("NVN", walks[1], quotient_rule(Wn, Un), "v must be bound to the exact quotient w / u with u != 0", failure_rule(Wn, Un))
+        check_bind("VNN", walks[0], quotient_rule(Wn, Vn), "u must be bound to the exact quotient w / v with v != 0", failure_rule(Wn, Vn))
         for combo, d in (("NVN", Un), ("VNN", Vn)):
             if combo in covered:
                 zero_rule(ctx, rule, key, site, combo, covered[combo][2], Wn, d, READD)
@@ -213,6 +218,38 @@ def quotient_rule(w, d):
                     exact = True
                     nonzero = True
         return nonzero and exact
+
+    return f
+
+
+def failure_rule(w, d):
+    """A two-numbers arm of timesz may fail only when (divisor == 0 and product != 0) or the division
+    is not exact."""
+
+    def f(lits):
+        cdiv = ("call", P("checked_div"), (w, d))
+        crem = ("call", P("checked_rem"), (w, d))
+        dzero = wnonzero = inexact = False
+        for l, pol in lits:
+            if l[0] == "binop" and l[1] in ("Eq", "Ne") and _is_zero_test(l, d) and ((l[1] == "Eq") == pol):
+                dzero = True
+            if l[0] == "binop" and l[1] in ("Eq", "Ne") and _is_zero_test(l, w) and ((l[1] == "Eq") != pol):
+                wnonzero = True
+            if l[0] == "binop" and l[1] in ("Eq", "Ne") and _is_zero_test(l, ("binop", "Rem", w, d)) and ((l[1] == "Eq") != pol):
+                inexact = True
+            if l[0] == "matches" and pol:
+                scrut, p = l[1], l[2]
+                about_div = any(unify(crem, x) is not None or unify(cdiv, x) is not None for x in sym.subterms(scrut))
+                exact_arm = False
+                if p[0] == "ptuple":
+                    for comp, pp in zip(scrut[1] if scrut[0] == "tuple" else (), p[1]):
+                        if unify(crem, comp) is not None and pp[0] == "pctor" and pp[1].endswith("Some") and pp[2] and pp[2][0][0] == "plit" and pp[2][0][1].strip() == "0":
+                            exact_arm = True
+                elif p[0] == "pctor" and p[1].endswith("Some") and p[2] and p[2][0][0] == "plit" and p[2][0][1].strip() == "0":
+                    exact_arm = True
+                if about_div and not exact_arm:
+                    inexact = True
+        return (dzero and wnonzero) or inexact
 
     return f
 
